@@ -142,6 +142,19 @@ pub mod uri {
 	pub fn tokens(s: &Str) -> impl Iterator<Item = u8> + '_ {
 		s.iter().copied()
 	}
+	/// Lookups of a URI through its IRI views in sets holding many URIs.
+	pub fn extra_collection_lookups(t: &[u8], bt: &std::collections::BTreeSet<RiBuf>, hs: &std::collections::HashSet<RiBuf>) -> Vec<(&'static str, bool)> {
+		use std::borrow::Borrow;
+		let u = Ri::new(t).ok().unwrap();
+		let i: &iref::Iri = u.borrow();
+		let ir: &iref::IriRef = u.borrow();
+		vec![
+			("BTreeSet<UriBuf>(all).contains(&Iri)", bt.contains(i)),
+			("BTreeSet<UriBuf>(all).contains(&IriRef)", bt.contains(ir)),
+			("HashSet<UriBuf>(all).contains(&Iri)", hs.contains(i)),
+			("HashSet<UriBuf>(all).contains(&IriRef)", hs.contains(ir)),
+		]
+	}
 	/// Comparisons with byte strings (URI family only).
 	pub fn extra_str_eq(kind: super::Kind, t: &[u8], u: &str) -> Vec<(&'static str, bool)> {
 		use super::Kind;
@@ -283,6 +296,9 @@ pub mod iri {
 		s.chars()
 	}
 	pub fn extra_views(_t: &[u8], _probs: &mut Vec<(String, String)>) {}
+	pub fn extra_collection_lookups(_t: &[u8], _bt: &std::collections::BTreeSet<RiBuf>, _hs: &std::collections::HashSet<RiBuf>) -> Vec<(&'static str, bool)> {
+		Vec::new()
+	}
 	pub fn extra_str_eq(_kind: super::Kind, _t: &[u8], _u: &str) -> Vec<(&'static str, bool)> {
 		Vec::new()
 	}
